@@ -393,6 +393,44 @@ def search(ck, tier, seed):
                        "evaluated once, then loaded with another state dict: integral %.8f (resolution %.1e)" % (val, est), case)
         elif verdict == "unresolved":
             unresolved += 1
+    # call order: flows whose linear layers keep their matrices (using_cache=True, evaluation mode), SAMPLED first - the inverse
+    # direction fills the cache - and integrated afterwards; and the other order
+    from nflows.transforms import linear as lin_, lu as lu_, qr as qr_, svd as svd_, base as base_, standard as std_
+    from nflows.flows.base import Flow as Flow_
+    from nflows.distributions.normal import StandardNormal as SN_
+    kinds = (("NaiveLinear", lambda D: lin_.NaiveLinear(D, orthogonal_initialization=False, using_cache=True)),
+             ("LULinear", lambda D: lu_.LULinear(D, using_cache=True, identity_init=False)),
+             ("QRLinear", lambda D: qr_.QRLinear(D, num_householder=2, using_cache=True)),
+             ("SVDLinear", lambda D: svd_.SVDLinear(D, num_householder=2, using_cache=True, identity_init=False)))
+    for kname, mk in kinds:
+        for order in ("sample-first", "log_prob-first"):
+            for D_ in (1, 2) if (kname == "NaiveLinear" and order == "sample-first") else (1,):
+                torch.manual_seed(seed % 100000 + 31)
+                r = attempt(lambda: Flow_(base_.CompositeTransform([std_.PointwiseAffineTransform(0.2, 0.8), mk(D_)]), SN_([D_])).double())
+                if r[0] != "ok":
+                    continue
+                fl = r[1]
+                randomize(fl, seed + 5, 0.4)
+                fl.eval()
+                name = "affine ; %s(using_cache) | StandardNormal (%s, D=%d)" % (kname, order, D_)
+                case = {"search": "normalisation-call-order", "D": D_, "program": name, "seed": seed}
+                ck.case(("c03-order", name), nontrivial=True)
+                with torch.no_grad():
+                    if order == "sample-first":
+                        attempt(fl.sample, 3)
+                    else:
+                        attempt(fl.log_prob, torch.zeros(2, D_, dtype=torch.float64))
+                        attempt(fl.sample, 3)
+                v = attempt(decide, fl, None, D_, None, tier)
+                if v[0] != "ok":
+                    unresolved += 1
+                    continue
+                verdict, val, est = v[1]
+                if verdict == "bad":
+                    ck.finding("flow:density-does-not-integrate-to-one:call-order:%s" % kname,
+                               "%s: integral %.8f (resolution %.1e)" % (name, val, est), case)
+                elif verdict == "unresolved":
+                    unresolved += 1
     return unresolved
 
 
